@@ -8,18 +8,29 @@
          the same single token, whatever follows it, also after the blank the printer writes;
      (c) a printed list of exact string tokens is lexed back as '[' item (',' item)* ']', whatever the items
          contain and whatever follows.
-   Not proved: the tree-level statement (tosieve of an accepted tree re-parses to an equal tree and printing
-   is a fixed point).  The printer model (sieve/Printer.v: definition-order traversal, tag + parameter,
-   test lists, indentation, the newline after a multi-line string) is tied to commands.py by comparing the
-   printed text of every accepted input, and the round trip itself (print, re-parse, compare trees as maps,
-   print again, compare text) is evaluated on the implementation over enumerations, generated scripts,
-   layouts, mutants and a quoting-edge value generator. *)
+   Tree level (sieve/RenderFacts.v, sieve/PrintTree.v), for every script derivable in the grammar wf_cmds of
+   CompleteTree whose tree is in CANONICAL FORM [canon_cmd] — command names spelled as in their definitions,
+   arguments written in definition order with each optional slot at most once, values that are quoted
+   strings, numbers, tags or non-empty lists of quoted strings (no `text:` blocks):
+     (d) the lexer inverts rendering: well-formed tokens written with any white space between them (none where
+         two tokens cannot merge) are lexed back as exactly those tokens (C04_lex_render);
+     (e) the text the model of Command.tosieve prints for such a tree IS the layout of the script's tokens
+         (one command per line, four spaces per level, ", " in lists) (C04_tosieve_layout);
+     (f) hence it is accepted and parses to EXACTLY the tree that was printed, and printing that tree again
+         gives the same text (C04_print_parse_roundtrip, C04_print_fixed_point) — unbounded over tables,
+         scripts, nesting depth, values.
+   Not proved: trees that are not in canonical form (arguments given in another order, repeated tags — the
+   printed text is then a different script with the same maps; equality of maps, not of trees), multi-line
+   strings, the commands outside wf_def (known findings).  The printer model is tied to commands.py by
+   comparing the printed text of every accepted input, and the round trip itself (print, re-parse, compare
+   trees as maps, print again, compare text) is evaluated on the implementation over enumerations, generated
+   scripts, layouts, mutants, repeated tags and a quoting-edge value generator. *)
 From Coq Require Import String.
 From Coq Require Import List NArith Bool Arith.
 From SV Require Import Bytes Lexer Tables ArgCheck ArgSpec Machine Printer GenTables.
 Import ListNotations.
 Local Open Scope nat_scope.
-From SV Require Import LexerFacts.
+From SV Require Import TotalFacts LexerFacts CompleteFacts CompleteTree CompleteExamples RenderFacts PrintTree PrintExamples.
 
 (* every string token delivered by the lexer is an exact string token *)
 Theorem C04_lexed_strings_exact :
@@ -38,7 +49,8 @@ Print Assumptions C04_item_printed_unchanged.
 Theorem C04_string_lexes_back :
   forall (pos : nat) (s : bytes) (rest : list N),
   exact_string s ->
-  next_token pos (s ++ rest) = LTok {| t_kind := TString; t_val := s; t_pos := pos |} rest.
+  next_token pos (s ++ rest)%list =
+  LTok {| t_kind := TString; t_val := s; t_pos := pos |} rest.
 Proof. exact LexerFacts.next_token_exact. Qed.
 Print Assumptions C04_string_lexes_back.
 
@@ -56,10 +68,86 @@ Theorem C04_list_lexes_back :
   forall (items : list bytes) (pos : nat) (rest : list N),
   items <> [] ->
   Forall exact_string items ->
-  next_n (2 * Datatypes.length items + 1) pos (print_items items ++ rest) =
+  next_n (2 * Datatypes.length items + 1) pos (print_items items ++ rest)%list =
   Some ((TLeftBracket, [91%N]) :: commas items ++ [(TRightBracket, [93%N])], rest).
 Proof. exact LexerFacts.printed_list_lexes_back. Qed.
 Print Assumptions C04_list_lexes_back.
+
+(* the lexer inverts rendering, for every token kind and every white space *)
+Theorem C04_lex_render :
+  forall (l : list ltok) (wend : bytes),
+  lchain l wend ->
+  all_space wend ->
+  snd (lex (lrender l ++ wend)%list) = None /\
+  map strip_pos (fst (lex (lrender l ++ wend)%list)) = ltoks l.
+Proof. exact RenderFacts.lex_lrender. Qed.
+Print Assumptions C04_lex_render.
+
+(* the tosieve layout of a printable script is lexed back as the tokens of the script *)
+Theorem C04_layout_lexes :
+  forall cs : list gcmd,
+  Forall cmd_pr cs ->
+  snd (lex (script_text cs)) = None /\
+  map strip_pos (fst (lex (script_text cs))) = flat_map toks_cmd cs.
+Proof. exact PrintTree.layout_lexes. Qed.
+Print Assumptions C04_layout_lexes.
+
+(* ... and parses to its tree *)
+Theorem C04_layout_parses :
+  forall (T : tables) (cs : list gcmd) (ns : list node) (L' : list bytes),
+  twf_tables T = true ->
+  wf_cmds T [] None cs ns L' -> Forall cmd_pr cs -> parse T (script_text cs) = Accept ns.
+Proof. exact PrintTree.layout_parses. Qed.
+Print Assumptions C04_layout_parses.
+
+(* the model of Command.tosieve prints exactly that layout for a tree in canonical form *)
+Theorem C04_tosieve_layout :
+  forall (cs : list gcmd) (ns : list node) (f : nat),
+  Forall2 canon_cmd cs ns ->
+  cs <> [] ->
+  fold_right (fun (x : gcmd) (m : nat) => Nat.max (dc x) m) 0 cs <= f ->
+  tosieve_all f ns = script_text cs.
+Proof. exact PrintTree.tosieve_layout. Qed.
+Print Assumptions C04_tosieve_layout.
+
+(* tree level: parse (print tree) = tree *)
+Theorem C04_print_parse_roundtrip :
+  forall (T : tables) (cs : list gcmd) (ns : list node) (L' : list bytes) (f : nat),
+  twf_tables T = true ->
+  wf_cmds T [] None cs ns L' ->
+  Forall2 canon_cmd cs ns ->
+  cs <> [] ->
+  fold_right (fun (x : gcmd) (m : nat) => Nat.max (dc x) m) 0 cs <= f ->
+  parse T (tosieve_all f ns) = Accept ns.
+Proof. exact PrintTree.print_parse_roundtrip. Qed.
+Print Assumptions C04_print_parse_roundtrip.
+
+(* printing the re-parsed tree reproduces the text *)
+Theorem C04_print_fixed_point :
+  forall (T : tables) (cs : list gcmd) (ns : list node) (L' : list bytes) (f : nat),
+  twf_tables T = true ->
+  wf_cmds T [] None cs ns L' ->
+  Forall2 canon_cmd cs ns ->
+  cs <> [] ->
+  fold_right (fun (x : gcmd) (m : nat) => Nat.max (dc x) m) 0 cs <= f ->
+  match parse T (tosieve_all f ns) with
+  | Accept ns' => tosieve_all f ns' = tosieve_all f ns
+  | _ => False
+  end.
+Proof. exact PrintTree.print_fixed_point. Qed.
+Print Assumptions C04_print_fixed_point.
+
+(* non-vacuity on the tables generated from /repo: the tree of the example script (require, if/elsif/else, anyof, not, nested blocks, tags with parameters, numbers, lists) is canonical *)
+Theorem C04_example_canonical :
+  Forall2 canon_cmd ex_script ex_nodes.
+Proof. exact PrintExamples.ex_canon. Qed.
+Print Assumptions C04_example_canonical.
+
+(* ... and the theorem gives its round trip *)
+Theorem C04_example_roundtrip :
+  parse gen_tables (tosieve_all 5 ex_nodes) = Accept ex_nodes.
+Proof. exact PrintExamples.ex_roundtrip. Qed.
+Print Assumptions C04_example_roundtrip.
 
 (* non-vacuity: hostile contents are exact string tokens; and the model round trip on a concrete script *)
 Example C04_exact_examples :
